@@ -200,6 +200,13 @@ func makeInvalid(t *rapid.T, ar *pb.ActionResult, kind string) {
 		ar.StderrRaw = nil
 		ar.StderrDigest = &pb.Digest{Hash: goodHash + "0", SizeBytes: 1}
 	}
+	// the offending output file may also carry inlined contents
+	switch kind {
+	case "neg-file-digest", "short-hash", "upper-hash", "nonhex-hash", "empty-file-path", "abs-file-path":
+		if f := ar.OutputFiles[len(ar.OutputFiles)-1]; f != nil && rapid.Bool().Draw(t, "invalidFileInlined") {
+			f.Contents = []byte("inlined contents of the offending file")
+		}
+	}
 }
 
 // canonical form for comparison: worker filled, and for stdout / stderr /
